@@ -21,6 +21,8 @@ def builds():
         dict(name="sched_tbb", src="sched_tbb.cpp", shim_first=[SHIM], libs=("-lboost_timer", "-lpthread")),
         dict(name="sched_tbb_tsan", src="sched_tbb.cpp", flags=TSAN_FLAGS, shim_first=[SHIM], libs=("-lboost_timer", "-lpthread")),
         dict(name="exact_realtbb", src="exact.cpp", flags=vlib.BASE_FLAGS + ["-DVH_TBB"]),
+        dict(name="sched_tbb_cfg_log", src="sched_tbb.cpp", shim_first=[SHIM], libs=("-lboost_timer", "-lpthread"), cfg=vlib.gen_config(logging=True)),
+        dict(name="sched_tbb_cfg_noinv", src="sched_tbb.cpp", shim_first=[SHIM], libs=("-lboost_timer", "-lpthread"), cfg=vlib.gen_config(invariants=False)),
     ])
 
 
@@ -104,11 +106,15 @@ def run(tier):
                  ("explore G(6) x U, dim>=4, exact x3, bound 1, direct 1", [["--n", 6, "--alpha", "U", "--bound", 1, "--direct-bound", 1, "--min-dim", 4]]),
                  ("explore G(6) x U, dim>=6, tree variants, direct bound 2", [["--n", 6, "--alpha", "U", "--bound", 0, "--direct-bound", 2, "--variants", "fvs_tbb,iso_tbb", "--min-dim", 6]]),
                  ("purity probe over G(6) x A2 with m <= 10 and G(7) x U with dimension >= 6", [["--n", 7, "--alpha", "U", "--bound", 0, "--direct-bound", 0, "--min-dim", 6]])]
-    for bound, arglists in plan:
+    plan += [("@sched_tbb_cfg_log", "other build configuration of the library: PARMCB_LOGGING on, G(4) x A2, exact x3 bound 1, approx k=2 bound 0", [["--n", 4, "--alpha", "A2", "--bound", 1, "--direct-bound", 1], ["--n", 4, "--alpha", "A2", "--bound", 0, "--direct-bound", 0, "--ks", "2"]]),
+             ("@sched_tbb_cfg_noinv", "other build configuration of the library: PARMCB_INVARIANTS_CHECK off, G(4) x A2, exact x3 bound 1, approx k=2 bound 0", [["--n", 4, "--alpha", "A2", "--bound", 1, "--direct-bound", 1], ["--n", 4, "--alpha", "A2", "--bound", 0, "--direct-bound", 0, "--ks", "2"]])]
+    for row in plan:
+        hname = row[0][1:] if row[0].startswith("@") else "sched_tbb"
+        bound, arglists = (row[1], row[2]) if row[0].startswith("@") else (row[0], row[1])
         for args in arglists:
             rem = c.remaining(20)
-            r = vlib.run_harness(ex, list(args) + ["--seed", vlib.seed(), "--deadline-s", int(rem)])
-            c.add_run(r, bound + " :: " + r["args"], None, replay={"harness": "sched_tbb"})
+            r = vlib.run_harness(b[hname], list(args) + ["--seed", vlib.seed(), "--deadline-s", int(rem)])
+            c.add_run(r, bound + " :: " + r["args"], None, replay={"harness": hname})
             for k in ("reduce_max_outcomes", "reduce_bodies_found_impure", "inputs_hitting_execution_cap", "inputs_decided_by_direct_mode_only"):
                 c.extra[k] = max(c.extra.get(k, 0), r.get(k, 0))
             c.extra["reduce_calls_with_identity_leaf"] = c.extra.get("reduce_calls_with_identity_leaf", 0) + r.get("reduce_calls_with_identity_leaf", 0)
